@@ -38,7 +38,7 @@ RUNIFS = [None, None, None, [True], [False], [None], [True, False], [False, True
 
 def run_real(case):
   out = ec.run_test_case(case)
-  return {'tokens': out['tokens'], 'ret': out['ret'], 'crashes': out['crashes']}
+  return {'tokens': ec.core_tokens(out['tokens']), 'ret': out['ret'], 'crashes': out['crashes']}
 
 
 def encode(case, obs):
